@@ -1,5 +1,6 @@
 import GormModel.Drv.Util
 import GormModel.Model.Scan
+import GormModel.Gen.BackfillFacts
 open Lean
 namespace Gorm.Drv
 open Gorm.Scan
@@ -172,6 +173,12 @@ def parseCCol (j : Json) : Option CCol := do
   let a ← jArr? j
   some { name := ← jStr? (arg a 0), dk := ← parseDefKind (arg a 1) }
 
+/-- [null | n, …]: `null` = nil map, `n` = key entry of the map (0 = none) -/
+def parseMapEnts (j : Json) : Option (List (Option Int)) := do
+  (← jArr? j).toList.mapM (fun x => match x with
+    | Json.null => some none
+    | _ => (jInt? x).map some)
+
 end HC03
 open HC03 in
 def handleC03 (op : String) (args : Array Json) : Option Json := do
@@ -198,29 +205,48 @@ def handleC03 (op : String) (args : Array Json) : Option Json := do
         | .error _ => Json.str "load-error"
         | .ok s => resJ (setField k k.zero s)
     some (Json.arr #[Json.bool (representable k fv), r])
+  | "c03.facts" =>
+    -- regenerated facts the back-fill model follows (extract/gen_c03.go)
+    some (Json.mkObj [("guardsKeyKind", Json.bool Gen.backfillGuardsKeyKind), ("mapsSkipPreset", Json.bool Gen.backfillMapsSkipPreset),
+      ("createFound", Json.bool Gen.backfillCreateFound), ("mapsLoopFound", Json.bool Gen.backfillMapsLoopFound)])
   | "c03.backfill" =>
-    -- ["c03.backfill", reversed, hasAutoPk, inc, keys, rowsAffected, lastId|null]
+    -- ["c03.backfill", reversed, hasDefault, autoInc, intType, inc, keys, rowsAffected, lastId|null]
     let rev ← jBool? (arg args 1)
-    let auto ← jBool? (arg args 2)
-    let inc ← jInt? (arg args 3)
-    let ks ← parseIntList (arg args 4)
-    let ra ← jInt? (arg args 5)
-    let lid := jInt? (arg args 6)
-    some (intListJ (createBackfillSlice rev auto inc ks ⟨ra, lid⟩))
+    let hd ← jBool? (arg args 2)
+    let auto ← jBool? (arg args 3)
+    let intT ← jBool? (arg args 4)
+    let inc ← jInt? (arg args 5)
+    let ks ← parseIntList (arg args 6)
+    let ra ← jInt? (arg args 7)
+    let lid := jInt? (arg args 8)
+    some (intListJ (createBackfill Gen.backfillGuardsKeyKind rev hd auto intT inc ks ⟨ra, lid⟩))
   | "c03.backfillmaps" =>
+    -- ["c03.backfillmaps", reversed, noSchema, hasDefault, autoInc, intType, [null|key…], rowsAffected, lastId|null]
     let rev ← jBool? (arg args 1)
-    let present ← (← jArr? (arg args 2)).toList.mapM jBool?
-    let id ← jInt? (arg args 3)
-    some (Json.arr ((backfillMaps rev present id).map optIntJ).toArray)
+    let noSchema ← jBool? (arg args 2)
+    let hd ← jBool? (arg args 3)
+    let auto ← jBool? (arg args 4)
+    let intT ← jBool? (arg args 5)
+    let ms ← parseMapEnts (arg args 6)
+    let ra ← jInt? (arg args 7)
+    let lid := jInt? (arg args 8)
+    let keyOk := noSchema || backfillGuard Gen.backfillGuardsKeyKind hd auto intT
+    some (Json.arr ((createBackfillMaps Gen.backfillMapsSkipPreset rev keyOk ms ⟨ra, lid⟩).map optIntJ).toArray)
   | "c03.createmaps" =>
     -- ["c03.createmaps", returning, ptrDest, max, n] → null | [[key|null…], len]
     let ret ← jBool? (arg args 1)
     let p ← jBool? (arg args 2)
     let m ← jInt? (arg args 3)
     let n ← jNat? (arg args 4)
-    match createMaps ret p m n with
+    match createMaps Gen.backfillMapsSkipPreset ret p m n with
     | none => some (Json.str "error")
     | some (ks, len) => some (Json.arr #[Json.arr (ks.map optIntJ).toArray, natJ len])
+  | "c03.createmapskeys" =>
+    -- ["c03.createmapskeys", max, keys] → [[key entry of every map afterwards], [row keys]]   (no RETURNING)
+    let m ← jInt? (arg args 1)
+    let ks ← parseIntList (arg args 2)
+    let (mem, rows, _) := createMapsKeys Gen.backfillMapsSkipPreset m ks
+    some (Json.arr #[Json.arr (mem.map optIntJ).toArray, intListJ rows])
   | "c03.lookup" =>
     -- ["c03.lookup", fields, names] → [LookUpField per name, DBNames, FieldsByName per name]
     let fs ← (← jArr? (arg args 1)).toList.mapM parsePField
